@@ -645,6 +645,13 @@ impl RwsFromStr for i64 {
     #[verifier::external_body]
     fn rws_from_str(s: &str) -> Result<i64, core::num::ParseIntError> { s.parse::<i64>() }
 }
+impl RwsFromStr for i32 {
+    type E = core::num::ParseIntError;
+    open spec fn parses(s: Seq<char>) -> bool { parses_signed(s, i32::MIN as int, i32::MAX as int) }
+    open spec fn val(s: Seq<char>) -> i32 { signed_val(s) as i32 }
+    #[verifier::external_body]
+    fn rws_from_str(s: &str) -> Result<i32, core::num::ParseIntError> { s.parse::<i32>() }
+}
 impl RwsFromStr for i16 {
     type E = core::num::ParseIntError;
     open spec fn parses(s: Seq<char>) -> bool { parses_signed(s, i16::MIN as int, i16::MAX as int) }
